@@ -70,6 +70,13 @@ func TdxValidate(ctx context.Context, attestation []byte, opts *TdxValidateOptio
 			return fmt.Errorf("failed to unmarshal endorsement: %v", err)
 		}
 	}
+	// The policy is only as trustworthy as the endorsement it is derived from.
+	if err := verify.EndorsementProto(endorsement, &verify.Options{
+		RootsOfTrust: opts.RootsOfTrust,
+		Now:          opts.Now,
+	}); err != nil {
+		return fmt.Errorf("endorsement did not verify: %v", err)
+	}
 	policy, err := TdxPolicy(ctx, endorsement, &TdxPolicyOptions{
 		Base:      opts.BasePolicy,
 		Overwrite: opts.Overwrite,
